@@ -276,6 +276,10 @@ func factsAt(p *Program, fn *ssa.Function, extra func(s factSet, ins ssa.Instruc
 					opp = strings.TrimSuffix(f, "==nil") + "!=nil"
 				case strings.HasSuffix(f, "!=nil"):
 					opp = strings.TrimSuffix(f, "!=nil") + "==nil"
+				case strings.Contains(f, "!="):
+					opp = strings.Replace(f, "!=", "==", 1)
+				case strings.Contains(f, "=="):
+					opp = strings.Replace(f, "==", "!=", 1)
 				}
 				if opp != "" && s.has(opp) {
 					return s, false
